@@ -883,7 +883,8 @@ class NetlistMixin(object):
         if len(names) < 2:
             return set()
         names.discard(cpt)
-        return list(names)
+        # Sort so that the result does not depend on the hash seed.
+        return sorted(names)
 
     def in_series(self, cpt=None):
         """Return set of component_names in series with specified component
@@ -902,7 +903,8 @@ class NetlistMixin(object):
         if len(names) < 2:
             return set()
         names.discard(cpt)
-        return list(names)
+        # Sort so that the result does not depend on the hash seed.
+        return sorted(names)
 
     def kill_except(self, *args):
         """Return a new circuit with all but the specified sources killed;
